@@ -417,4 +417,216 @@ Proof.
     replace (k + Z.of_nat (npk it + total_pk r)) with (k + Z.of_nat (npk it) + Z.of_nat (total_pk r)) by lia. auto.
 Qed.
 
+(* ================= never spliced: arbitrary rearrangements ================= *)
+(* Packets are drawn from one packetisation in any order, with repetitions and
+   omissions.  Every unit that comes out is a unit of the plan. *)
+Section Splice.
+Variable items : list item.
+Hypothesis items_ok : forallb (item_ok z) items = true.
+Hypothesis items_few : Z.of_nat (total_pk items) <= 65536.
+
+(* item [it] occupies the packet indices kit .. kit + npk it - 1 *)
+Definition located (kit : Z) (it : item) : Prop :=
+  exists pre post, items = pre ++ it :: post /\ kit = Z.of_nat (total_pk pre).
+
+Lemma total_pk_app a b : total_pk (a ++ b) = (total_pk a + total_pk b)%nat.
+Proof. induction a as [|x a IH]; simpl; [reflexivity|]. rewrite IH. lia. Qed.
+
+Lemma located_range kit it : located kit it -> 0 <= kit /\ kit + Z.of_nat (npk it) <= 65536.
+Proof.
+  intros (pre & post & E & K). pose proof items_few as F. rewrite E, total_pk_app in F. simpl in F. lia.
+Qed.
+
+Lemma located_ok kit it : located kit it -> item_ok z it = true /\ In it items.
+Proof.
+  intros (pre & post & E & K). assert (I : In it items) by (rewrite E; apply in_or_app; right; left; reflexivity).
+  split; auto. pose proof items_ok as O. rewrite forallb_forall in O. auto.
+Qed.
+
+Lemma located_unique kit it kit' it' x :
+  located kit it -> located kit' it' ->
+  kit <= x < kit + Z.of_nat (npk it) -> kit' <= x < kit' + Z.of_nat (npk it') ->
+  it = it' /\ kit = kit'.
+Proof.
+  intros (pre & post & E & K) (pre' & post' & E' & K') R R'.
+  rewrite E in E'. apply app_eq_app in E' as [l [[P Q]|[P Q]]].
+  - destruct l as [|y l].
+    + rewrite app_nil_r in P. simpl in Q. injection Q as <- _. subst. auto.
+    + simpl in Q. injection Q as <- Q. subst pre. rewrite total_pk_app in K. simpl in K. lia.
+  - destruct l as [|y l].
+    + rewrite app_nil_r in P. simpl in Q. injection Q as <- _. subst. auto.
+    + simpl in Q. injection Q as <- Q. subst pre'. rewrite total_pk_app in K'. simpl in K'. lia.
+Qed.
+
+(* where a packet comes from *)
+Inductive prov : packet -> Prop :=
+| PSingle kit ts mk u : located kit (ISingle ts mk u) -> prov (mkP (seq_at seq0 kit) (ts32 ts) mk u)
+| PAgg kit ts mk us : located kit (IAgg ts mk us) ->
+    prov (mkP (seq_at seq0 kit) (ts32 ts) mk (z_agg_hdr z us ++ agg_body us))
+| PFrag kit ts mk mk' u sizes i : located kit (IFrag ts mk u sizes) -> (i < S (length sizes))%nat ->
+    prov (mkP (seq_at seq0 (kit + Z.of_nat i)) (ts32 ts) mk'
+              (z_fu_hdr z u (Nat.eqb i 0) (Nat.eqb (S i) (S (length sizes)))
+               ++ nth i (chunk_by sizes (z_fu_body z u)) [])).
+
+Lemma fu_pkts_prov kit ts mk u sizes : located kit (IFrag ts mk u sizes) ->
+  forall chunks j first, (j + length chunks = S (length sizes))%nat -> first = Nat.eqb j 0 ->
+  (forall i, (i < length chunks)%nat -> nth i chunks [] = nth (j + i) (chunk_by sizes (z_fu_body z u)) []) ->
+  forall p, In p (fu_pkts z seq0 (kit + Z.of_nat j) (ts32 ts) mk u first chunks) -> prov p.
+Proof.
+  intros LOC. induction chunks as [|ch r IH]; intros j first LEN FST NTH p IN; [destruct IN|].
+  destruct (fu_pkts_cons (kit + Z.of_nat j) (ts32 ts) mk u first ch r) as [mk' EQc]; unfold bytes in *; rewrite EQc in IN; clear EQc.
+  destruct IN as [<-|IN].
+  - pose proof (NTH 0%nat) as N0. simpl in N0. rewrite Nat.add_0_r in N0. rewrite N0 by lia.
+    replace (match r with [] => true | _ :: _ => false end) with (Nat.eqb (S j) (S (length sizes))).
+    + subst first. apply (PFrag kit ts mk mk' u sizes j LOC). simpl in LEN. lia.
+    + simpl in LEN. destruct r; simpl in LEN.
+      * apply Nat.eqb_eq. lia.
+      * apply Nat.eqb_neq. lia.
+  - replace (kit + Z.of_nat j + 1) with (kit + Z.of_nat (S j)) in IN by lia.
+    apply (IH (S j) false); auto.
+    + simpl in LEN. lia.
+    + intros i Hi. specialize (NTH (S i)). simpl in NTH. rewrite NTH by (simpl; lia). f_equal. lia.
+Qed.
+
+Lemma packetize_prov : forall post pre p, items = pre ++ post ->
+  In p (packetize z seq0 (Z.of_nat (total_pk pre)) post) -> prov p.
+Proof.
+  induction post as [|it r IH]; intros pre p E IN; [destruct IN|].
+  simpl in IN. apply in_app_or in IN as [IN|IN].
+  - assert (LOC : located (Z.of_nat (total_pk pre)) it) by (exists pre, r; auto).
+    destruct it as [ts mk u|ts mk us|ts mk u sizes]; simpl in IN.
+    + destruct IN as [<-|[]]. apply PSingle. exact LOC.
+    + destruct IN as [<-|[]]. apply PAgg. exact LOC.
+    + replace (Z.of_nat (total_pk pre)) with (Z.of_nat (total_pk pre) + Z.of_nat 0) in IN by lia.
+      eapply (fu_pkts_prov _ ts mk u sizes LOC _ 0%nat true); eauto.
+      rewrite chunk_by_length. reflexivity.
+  - apply (IH (pre ++ [it]) p).
+    + rewrite <- app_assoc. exact E.
+    + rewrite total_pk_app. simpl. rewrite Nat.add_0_r. rewrite Nat2Z.inj_add. exact IN.
+Qed.
+
+Definition allowed (f : uframe) : Prop := In f (filter fkeep (flat_map item_frames items)).
+
+Lemma allowed_item it f : In it items -> In f (filter fkeep (item_frames it)) -> allowed f.
+Proof.
+  intros I H. unfold allowed. apply filter_In in H as [H K]. apply filter_In. split; auto.
+  apply in_flat_map. exists it. auto.
+Qed.
+
+(* the buffer is empty or holds the first t (non-final) fragments of one located item *)
+Definition good_buf (F : list (Z * bytes)) : Prop :=
+  F = [] \/
+  exists kit ts mk u sizes t,
+    located kit (IFrag ts mk u sizes) /\ (1 <= t < S (length sizes))%nat /\
+    last_seq F = Some (seq_at seq0 (kit + Z.of_nat t - 1)) /\
+    fu_data (c_fu_off c) F = Some (concat (firstn t (chunk_by sizes (z_fu_body z u)))).
+
+Lemma concat_firstn_succ (l : list bytes) t : (t < length l)%nat ->
+  concat (firstn (S t) l) = concat (firstn t l) ++ nth t l [].
+Proof.
+  revert t. induction l as [|x l IH]; intros t L; simpl in L; [lia|].
+  destruct t.
+  - simpl. rewrite app_nil_r. reflexivity.
+  - change (firstn (S (S t)) (x :: l)) with (x :: firstn (S t) l).
+    change (firstn (S t) (x :: l)) with (x :: firstn t l).
+    change (nth (S t) (x :: l) []) with (nth t l []). cbn [concat].
+    rewrite IH by lia. rewrite app_assoc. reflexivity.
+Qed.
+
+Lemma seq_at_inj a b : 0 <= a < 65536 -> 0 <= b < 65536 -> seq_at seq0 a = seq_at seq0 b -> a = b.
+Proof. unfold seq_at. intros. lia. Qed.
+
+Lemma splice_step F w p : prov p -> good_buf F -> w_ready w = true ->
+  exists F' w' r, gstep c (mkG F w) p = (mkG F' w', r) /\ is_rpanic r = false /\
+                  good_buf F' /\ w_ready w' = true /\ (forall f, In f (res_frames r) -> allowed f).
+Proof.
+  intros PV GB R. destruct PV as [kit ts mk u LOC|kit ts mk us LOC|kit ts mk mk' u sizes i LOC Hi].
+  - destruct (located_ok _ _ LOC) as [OK IN].
+    destruct (item_all kit (ISingle ts mk u) (mkG F w) OK R) as (st' & E & R' & FR).
+    simpl item_pkts in E. simpl in E. destruct (gstep c (mkG F w) (mkP (seq_at seq0 kit) (ts32 ts) mk u)) as [st1 r1] eqn:G.
+    destruct r1 as [fs|fs|]; try discriminate; injection E as <- E;
+      exists (g_frags st1), (g_w st1); eexists; (split; [destruct st1; reflexivity|]); split; auto;
+      cbn [g_frags g_w] in *; (split; [destruct FR as [-> | ->]; [auto|left; reflexivity]|]); split; auto;
+      intros f Hf; simpl in Hf; rewrite app_nil_r in E; rewrite E in Hf; eapply allowed_item; eauto.
+  - destruct (located_ok _ _ LOC) as [OK IN].
+    destruct (item_all kit (IAgg ts mk us) (mkG F w) OK R) as (st' & E & R' & FR).
+    simpl item_pkts in E. simpl in E.
+    destruct (gstep c (mkG F w) (mkP (seq_at seq0 kit) (ts32 ts) mk (z_agg_hdr z us ++ agg_body us))) as [st1 r1] eqn:G.
+    destruct r1 as [fs|fs|]; try discriminate; injection E as <- E;
+      exists (g_frags st1), (g_w st1); eexists; (split; [destruct st1; reflexivity|]); split; auto;
+      cbn [g_frags g_w] in *; (split; [destruct FR as [-> | ->]; [auto|left; reflexivity]|]); split; auto;
+      intros f Hf; simpl in Hf; rewrite app_nil_r in E; rewrite E in Hf; eapply allowed_item; eauto.
+  - destruct (located_ok _ _ LOC) as [OK IN]. destruct (located_range _ _ LOC) as [K0 KB]. simpl npk in KB.
+    simpl in OK. apply andb_true_iff in OK as [OK NE]. apply andb_true_iff in OK as [FO UB].
+    set (chunks := chunk_by sizes (z_fu_body z u)) in *.
+    assert (CL : length chunks = S (length sizes)) by apply chunk_by_length.
+    destruct i as [|i'].
+    + (* start fragment: the buffer restarts with it *)
+      assert (E2 : Nat.eqb 1 (S (length sizes)) = false).
+      { apply Nat.eqb_neq. destruct sizes; [discriminate NE|simpl; lia]. }
+      change (Nat.eqb 0 0) with true. rewrite E2. replace (kit + Z.of_nat 0) with kit by lia.
+      rewrite (fu_start u (ts32 ts) FO UB (mkG F w) (seq_at seq0 kit) mk' (nth 0 chunks [])).
+      eexists; eexists; eexists; split; [reflexivity|]. split; [reflexivity|]. split; [|split; [exact R|intros f []]].
+      right. exists kit, ts, mk, u, sizes, 1%nat. split; auto. split.
+      { destruct sizes; [discriminate NE|simpl; lia]. }
+      split.
+      { unfold last_seq. simpl. f_equal. f_equal. lia. }
+      destruct (H_fu u true false (nth 0 chunks []) FO UB) as (_ & _ & fuh & I & SB & EB & L & D & B).
+      cbn [fu_data]. unfold bytes in *. rewrite L, D. fold chunks.
+      destruct chunks as [|c0 cr]; [discriminate CL|]. simpl. rewrite !app_nil_r. reflexivity.
+    + (* a later fragment *)
+      change (Nat.eqb (S i') 0) with false.
+      set (idx := kit + Z.of_nat (S i')) in *.
+      destruct GB as [->|(kit2 & ts2 & mk2 & u2 & sizes2 & t & LOC2 & Ht & LS & FD)].
+      * rewrite (fu_nochain u (ts32 ts) FO UB [] w (seq_at seq0 idx) mk' _ (nth (S i') chunks [])) by (left; reflexivity).
+        eexists; eexists; eexists; split; [reflexivity|]. split; [reflexivity|]. split; [left; reflexivity|]. split; [exact R|intros f []].
+      * destruct (located_range _ _ LOC2) as [K02 KB2]. simpl npk in KB2.
+        destruct (Z.eq_dec (kit2 + Z.of_nat t) idx) as [EQ|NEQ].
+        -- (* the next fragment of the buffered unit *)
+           destruct (located_unique kit2 (IFrag ts2 mk2 u2 sizes2) kit (IFrag ts mk u sizes) idx LOC2 LOC) as [EI EK].
+           { simpl npk. lia. } { simpl npk. unfold idx. lia. }
+           injection EI as -> -> -> ->. subst kit2.
+           assert (TI : t = S i') by (unfold idx in EQ; lia). subst t.
+           assert (LS' : last_seq F = Some (seq_prev (seq_at seq0 idx))).
+           { rewrite LS, seq_prev_at'. unfold idx. repeat f_equal; lia. }
+           destruct (Nat.eqb (S (S i')) (S (length sizes))) eqn:EE.
+           ++ apply Nat.eqb_eq in EE.
+              destruct (fu_end u (ts32 ts) FO UB F w (seq_at seq0 idx) mk' (nth (S i') chunks []) _
+                          (concat (firstn (S i') chunks)) LS' eq_refl FD) as [w' [E R']]; auto.
+              { rewrite <- concat_firstn_succ by lia. rewrite firstn_all2 by lia. apply chunk_by_concat. }
+              rewrite E. eexists; eexists; eexists; split; [reflexivity|]. split; [reflexivity|].
+              split; [left; reflexivity|]. split; [exact R'|].
+              intros f Hf. simpl in Hf. apply (allowed_item (IFrag ts mk u sizes)); auto.
+              all: try (unfold item_frames; simpl; unfold fkeep at 1; cbn [u_pl]; destruct (keep u); [exact Hf|destruct Hf]).
+           ++ apply Nat.eqb_neq in EE.
+              rewrite (fu_mid u (ts32 ts) FO UB F w (seq_at seq0 idx) mk' (nth (S i') chunks []) _ LS' eq_refl).
+              eexists; eexists; eexists; split; [reflexivity|]. split; [reflexivity|]. split; [|split; [exact R|intros f []]].
+              right. exists kit, ts, mk, u, sizes, (S (S i')). split; auto. split; [lia|]. split.
+              { rewrite last_seq_app. f_equal. f_equal. unfold idx. lia. }
+              destruct (H_fu u false false (nth (S i') chunks []) FO UB) as (_ & _ & fuh & I & SB & EB & L & D & B).
+              unfold bytes in *. rewrite (fu_data_app _ _ _ _ _ FD L), D. fold chunks.
+              assert (LT : (S i' < length chunks)%nat) by (rewrite CL; lia).
+              f_equal. symmetry. apply concat_firstn_succ. exact LT.
+        -- (* a fragment that does not continue the buffer: the unit is dropped *)
+           rewrite (fu_nochain u (ts32 ts) FO UB F w (seq_at seq0 idx) mk' _ (nth (S i') chunks [])).
+           ++ eexists; eexists; eexists; split; [reflexivity|]. split; [reflexivity|]. split; [left; reflexivity|]. split; [exact R|intros f []].
+           ++ right. eexists. split; [exact LS|]. rewrite seq_prev_at'. intros X. apply seq_at_inj in X; unfold idx in *; lia.
+Qed.
+
+Theorem never_spliced : forall ps F w, Forall prov ps -> good_buf F -> w_ready w = true ->
+  exists F' w' fs, grun c (mkG F w) ps = (mkG F' w', fs, false) /\ good_buf F' /\ w_ready w' = true /\
+                   (forall f, In f fs -> allowed f).
+Proof.
+  induction ps as [|p r IH]; intros F w PV GB R.
+  - exists F, w, []. repeat split; auto. intros f [].
+  - inversion PV as [|? ? P1 P2]; subst.
+    destruct (splice_step F w p P1 GB R) as (F1 & w1 & r1 & E1 & NP & GB1 & R1 & A1).
+    destruct (IH F1 w1 P2 GB1 R1) as (F2 & w2 & fs2 & E2 & GB2 & R2 & A2).
+    erewrite grun_cons; [|exact E1|exact NP]. rewrite E2.
+    exists F2, w2, (res_frames r1 ++ fs2). repeat split; auto.
+    intros f Hf. apply in_app_or in Hf as [Hf|Hf]; auto.
+Qed.
+
+End Splice.
+
 End Generic.
